@@ -1278,21 +1278,26 @@ pub fn c18(c: &Collector, g: &mut Guard) {
         }
     }
     // larger widths: default, empty, full, singletons, pairs from the edge set
-    for w in [13u32, 16, 17, 24, 80, 132, 140, 255, 256, 257, 264, 300] {
+    for w in [13u32, 16, 17, 24, 80, 132, 140, 255, 256, 257, 264, 300, 1030, 1500, 5000] {
         let mut edge: Vec<u32> = vec![0, 1, 7, 8, 9, w - 2, w - 1];
         if w > 250 {
             edge.extend([127, 128, 254]);
             if w > 256 {
                 edge.extend([255, 256]);
             }
+            // beyond fixed-size stop tables (1024- or 4096-bit bitmaps)
+            edge.extend([1023u32, 1024, 1025, 4095, 4096, 4097].iter().filter(|x| **x < w));
             edge.sort_unstable();
             edge.dedup();
         }
-        let mut sets: Vec<Option<Vec<u32>>> = vec![None, Some(vec![]), Some((0..w).collect())];
+        let mut sets: Vec<Option<Vec<u32>>> = vec![None, Some(vec![])];
+        if w <= 1000 {
+            sets.push(Some((0..w).collect()));
+        }
         for a in &edge {
             sets.push(Some(vec![*a]));
             for b in &edge {
-                if a < b {
+                if a < b && (w <= 1000 || (*a >= 1023 && *b >= 1023)) {
                     sets.push(Some(vec![*a, *b]));
                 }
             }
@@ -1315,7 +1320,7 @@ pub fn c18(c: &Collector, g: &mut Guard) {
             } else {
                 let mut v = vec![0, 1, 6, 7, 8, 9, 15, 16, w / 2, w - 2, w - 1, w];
                 if w > 250 {
-                    v.extend([126, 127, 128, 253, 254, 255, 256, 257].iter().filter(|x| **x <= w));
+                    v.extend([126, 127, 128, 253, 254, 255, 256, 257, 1022, 1023, 1024, 1025, 4094, 4095, 4096, 4097].iter().filter(|x| **x <= w));
                 }
                 v.sort_unstable();
                 v.dedup();
@@ -2302,10 +2307,12 @@ pub fn c16(c: &Collector, g: &mut Guard) {
     }
     // histories without merging around scrolls and resizes (a private scratch frame or row cache
     // that survives a shrink and is swapped back in by the next scroll)
-    history_tree_j(
+    let tscript = vec![Op::Draw("ab".into()), Op::Cup(Some(2), Some(1)), Op::Draw("cd".into()), Op::Cup(Some(3), Some(1)), Op::Draw("e".into())];
+    let tbase: Vec<Base> = build(2, 3, &tscript).ok().map(|s| Base { columns: 2, lines: 3, script: tscript.clone(), screen: s }).into_iter().collect();
+    crate::props::history_tree_from(
         c,
         "C16",
-        (2, 3),
+        tbase,
         vec![
             Op::Index,
             Op::ReverseIndex,
